@@ -100,7 +100,11 @@ def build_engine(world, sim, yp_class, ctl, warmup=False):
         yp.register_function('n', f, arity=ar)
     for n, a, extra in world['dynamic']:
         for k in range(extra):
-            yp.assert_fact(yp.atom(n), [yp.atom('dyn%d' % k)] * a)
+            if n == 'k':
+                # dynamic facts that hold goals: ground compound terms, shared by every use of the fact
+                yp.assert_fact(yp.atom(n), [yp.functor('s', [yp.atom('b')]) if k == 0 else yp.functor('q', [])])
+            else:
+                yp.assert_fact(yp.atom(n), [yp.atom('dyn%d' % k)] * a)
     qvars = {}
     qargs = [TM.build(yp, TM.T(t), qvars) for t in world['query'][1]]
     held = []
